@@ -297,7 +297,8 @@ def values(t, limit: int = 3) -> list:  # noqa: C901, PLR0912
         return [tuple(vs[:2]), ()][:limit]
     if k == "set":
         vs = values(t[1])
-        return [set(vs[:2]), frozenset(vs[:1])][:limit]
+        # (a dict's key view is a collections.abc.Set as well)
+        return [set(vs[:2]), dict.fromkeys(vs[:2], 0).keys(), frozenset(vs[:1])][:limit]
     if k == "frozenset":
         vs = values(t[1])
         return [frozenset(vs[:2]), frozenset()][:limit]
@@ -412,7 +413,7 @@ def conforms(v, t) -> str:  # noqa: C901, PLR0911, PLR0912, PLR0915
             return U if len(v) == 2 else N
         return N
     if k == "set":
-        if type(v) in (set, frozenset):
+        if type(v) in (set, frozenset) or isinstance(v, cabc.KeysView):
             return _combine([conforms(e, t[1]) for e in v])
         if isinstance(v, cabc.Set):
             return U
